@@ -662,6 +662,11 @@ def t_smt(t):
             e["spec"] = ser_spec(spec, [(i.disasm, i.value) for i in sbb.instructions])
             e["costs"] = {u["id"]: [u["gas"], u["size"]] for u in spec["user_instrs"]}
             e["ids"] = [u["id"] for u in spec["user_instrs"]]
+            e["tokens"] = vocab.tokens_of_block(sbb)
+            e["effects"] = [u["id"] for u in spec["user_instrs"] if u["disasm"] in
+                            ("MSTORE", "MSTORE8", "MLOAD", "KECCAK256", "SHA3", "SSTORE", "SLOAD")]
+            e["uinstrs"] = [[u["id"], u["disasm"], [str(a) for a in u["inpt_sk"]], [str(a) for a in u["outpt_sk"]]] for u in spec["user_instrs"]]
+            e["deps"] = spec.get("memory_dependences", []) + spec.get("storage_dependences", [])
         except Exception as ex:
             e["unsupported"] = str(ex)
             r["subs"].append(e)
